@@ -35,6 +35,8 @@ type Case struct {
 	// (exact): distances scale with the coordinates, at any magnitude at which the
 	// squares (2-D) or fourth powers (3-D) of the coordinates are finite and normal.
 	Exp int `json:"exp,omitempty"`
+	// Div > 1: every ordinate is divided by Div (in float64) before anything else.
+	Div int `json:"div,omitempty"`
 	// NegZero: zero ordinates of the odd-numbered points are handed over as -0.
 	NegZero bool `json:"negZero,omitempty"`
 }
@@ -43,6 +45,9 @@ type Case struct {
 var curExp int
 
 func sc(v float64) float64 { return math.Ldexp(v, curExp) }
+
+// curDiv is Case.Div of the case being evaluated.
+var curDiv int
 
 func pt(t *rapid.T, lim int64, label string) [3]int64 {
 	return [3]int64{rapid.Int64Range(-lim, lim).Draw(t, label+"x"), rapid.Int64Range(-lim, lim).Draw(t, label+"y"), rapid.Int64Range(-lim, lim).Draw(t, label+"z")}
@@ -223,6 +228,12 @@ func genCase(t *rapid.T) Case {
 		}
 		c.Class += "+negzero"
 	}
+	// ordinates that are not short binary fractions (decimals, thirds): sums, differences
+	// and parameters that were exact on whole numbers now round
+	if rapid.IntRange(0, 3).Draw(t, "div") == 0 {
+		c.Div = rapid.SampledFrom([]int{10, 10, 3, 7, 100, 1000, 60000}).Draw(t, "divby")
+		c.Class += "+div"
+	}
 	if rapid.IntRange(0, 3).Draw(t, "scaled") == 0 {
 		c.Exp = rapid.SampledFrom([]int{-lim, lim, -lim / 2, lim / 2, 260, -260, 100, -100, 30, -30}).Draw(t, "exp")
 		if c.Exp > lim || c.Exp < -lim || rapid.Bool().Draw(t, "expany") {
@@ -289,24 +300,38 @@ func negz(c Case, i int, co geom.Coord) geom.Coord {
 	return co
 }
 
-func c2(p [3]int64) geom.Coord { return geom.Coord{sc(float64(p[0])), sc(float64(p[1]))} }
-func c3(p [3]int64) geom.Coord {
-	return geom.Coord{sc(float64(p[0])), sc(float64(p[1])), sc(float64(p[2]))}
+// val is ordinate v of the case as a float64: v itself, or v divided by the case's Div
+// (a value that is not a short binary fraction: 0.1, 1/3, ...). The exact oracle works
+// on the value of that double.
+func val(v int64) float64 {
+	if curDiv > 1 {
+		return float64(v) / float64(curDiv)
+	}
+	return float64(v)
 }
-func e2(p [3]int64) exact.P2 { return exact.Pt(float64(p[0]), float64(p[1])) }
-func e3(p [3]int64) exact.P3 { return exact.Pt3(float64(p[0]), float64(p[1]), float64(p[2])) }
+
+func c2(p [3]int64) geom.Coord { return geom.Coord{sc(val(p[0])), sc(val(p[1]))} }
+func c3(p [3]int64) geom.Coord {
+	return geom.Coord{sc(val(p[0])), sc(val(p[1])), sc(val(p[2]))}
+}
+func e2(p [3]int64) exact.P2 { return exact.Pt(val(p[0]), val(p[1])) }
+func e3(p [3]int64) exact.P3 { return exact.Pt3(val(p[0]), val(p[1]), val(p[2])) }
 
 func scaleOf(c Case, dims int) float64 {
 	s := 0.0
 	for _, p := range c.P {
 		for d := 0; d < dims; d++ {
-			s = math.Max(s, math.Abs(float64(p[d])))
+			s = math.Max(s, math.Abs(val(p[d])))
 		}
 	}
 	return s
 }
 
 func check(what string, got float64, d2 *big.Rat, tol float64, exactZero bool) error {
+	// "zero when the sets touch or cross" is checked to the last bit where the arithmetic
+	// can deliver it: on whole-number ordinates (every product is exact). On ordinates
+	// that are not short binary fractions zero means within the tolerance.
+	exactZero = exactZero && curDiv <= 1
 	if curExp != 0 {
 		what = fmt.Sprintf("%s [all ordinates x 2^%d, result / 2^%d]", what, curExp, curExp)
 		got = math.Ldexp(got, -curExp)
@@ -328,8 +353,8 @@ func check(what string, got float64, d2 *big.Rat, tol float64, exactZero bool) e
 
 func prop(c Case) error {
 	P := c.P
-	curExp = c.Exp
-	defer func() { curExp = 0 }()
+	curExp, curDiv = c.Exp, c.Div
+	defer func() { curExp, curDiv = 0, 0 }()
 	// cc is point i as the coordinate handed to a 2-D function
 	cc := func(i int) geom.Coord {
 		out := c2of(c, i)
@@ -391,7 +416,7 @@ func prop(c Case) error {
 		}
 		var line []float64
 		for i, p := range P[1:] {
-			line = append(line, sc(float64(p[0])), sc(float64(p[1])))
+			line = append(line, sc(val(p[0])), sc(val(p[1])))
 			for d := 2; d < stride; d++ {
 				line = append(line, float64(i*7919+d)*1e6)
 			}
@@ -468,7 +493,11 @@ func prop(c Case) error {
 			}
 		}
 	case "seg-seg3":
-		tol := 1e-12 * scaleOf(c, 3)
+		// (the closest points of two nearly parallel lines are ill-conditioned, and the
+		// documented method goes through them: its error grows like 1/sin(angle) until the
+		// end-point candidates bound it, at worst about sqrt(eps) x scale. 1e-9 x scale is
+		// the tolerance this check started with; the other functions are held to 1e-12.)
+		tol := 1e-9 * scaleOf(c, 3)
 		d2 := exact.SegSegDist2_3(e3(P[0]), e3(P[1]), e3(P[2]), e3(P[3]))
 		for vi, idx := range variants {
 			got := xyz.DistanceLineToLine(c3of(c, idx[0]), c3of(c, idx[1]), c3of(c, idx[2]), c3of(c, idx[3]))
